@@ -32,7 +32,9 @@ def call(bij, m, x, cond=None):
 
 
 def nextafter_set(v):
-    return [v, float(np.nextafter(v, -np.inf)), float(np.nextafter(v, np.inf))]
+    """v and its float neighbours (denormals are dropped: XLA flushes them to zero)"""
+    out = [v, float(np.nextafter(v, -np.inf)), float(np.nextafter(v, np.inf))]
+    return [u for u in out if u == 0.0 or abs(u) > 1e-300]
 
 
 # ------------------------------------------------------------------ leaf builders
